@@ -95,7 +95,8 @@ def history_case(rng):
                         loss=lambda k, src, dst, fr: k in lose_k or (dst in drop_from and sc.w.now >= drop_from[dst]))
     tr = PairTracker()
     sc.net.taps.append(lambda src, fr: tr.on_frame(fr[0], fr[1], fr[3]))
-    sc.net.rx_taps.append(lambda dst, cid, data: tr.on_rx(sc.w.now, cid, data))
+    # only what the ADDRESSED stack receives counts (every stack overhears every frame on the bus)
+    sc.net.rx_taps.append(lambda dst, cid, data: tr.on_rx(sc.w.now, cid, data) if ((cid >> 8) & 0xFF) == sc.addrs[dst] else None)
     bad = []
     steps = rng.randrange(1, 12)
     lost0 = sorted(lose_k)
